@@ -391,6 +391,15 @@ func nativeReplay(files map[string]string, pkgDir string, replays []string, shor
 	sort.Strings(liveIDs)
 	cmd.Env = append(os.Environ(), "VERIF_LIVE_FINDINGS="+strings.Join(liveIDs, ","), "GOFLAGS=-mod=mod", "GOPROXY=off", "GOSUMDB=off", "GOTOOLCHAIN=local", "GOWORK=off", "VERIF_REPLAY="+strings.Join(replays, ","))
 	out, err := cmd.CombinedOutput()
+	if err != nil && (strings.Contains(string(out), "[build failed]") || strings.Contains(string(out), "signal: ")) && !strings.Contains(string(out), ".go:") {
+		// the toolchain itself was interrupted (e.g. the linker killed on a loaded machine),
+		// not a compile error of the package: build and run once more
+		time.Sleep(2 * time.Second)
+		cmd2 := exec.Command("go", "test", "-vet=off", "-count=1", "-timeout", tmo, "-overlay", ovf, "-run", "^TestVerifReplay$", "-v", pkgDir)
+		cmd2.Dir = repoDir
+		cmd2.Env = cmd.Env
+		out, err = cmd2.CombinedOutput()
+	}
 	ms := resultRe.FindAllStringSubmatch(string(out), -1)
 	var res []string
 	for _, m := range ms {
